@@ -350,7 +350,10 @@ type kase struct {
 	// expectations
 	Winner string `json:"winner,omitempty"`
 	Want   string `json:"want,omitempty"`
-	li     int
+	// together: another setting of the same group supplied through the same channel in the same invocation
+	Also     *source `json:"also,omitempty"`
+	AlsoLeaf string  `json:"also_leaf,omitempty"`
+	li       int
 }
 
 type result struct {
@@ -424,6 +427,25 @@ func buildCases(leaves []leaf, thorough bool) []kase {
 			}
 			for _, ch := range []string{"flag", "env"} {
 				add(kase{Kind: "cross", Mode: ch, Sources: []source{{Kind: ch, Tag: specific, V: vs[0]}, {Kind: ch, Tag: generic, V: vs[1]}}, Winner: ch + ":" + specific})
+			}
+		}
+		// --- two settings of one group through the same channel in one invocation: each gets its own value
+		// (the flag/env walk over a group's fields must not stop at one of them)
+		if len(l.Tags) > 0 {
+			group, _, _ := strings.Cut(l.Path, ".")
+			for _, o := range leaves {
+				og, _, _ := strings.Cut(o.Path, ".")
+				if og != group || o.Path == l.Path || len(o.Tags) == 0 {
+					continue
+				}
+				ovs := values(o, 4)
+				if ovs == nil {
+					continue
+				}
+				for _, ch := range []string{"flag", "env"} {
+					add(kase{Kind: "together", Mode: ch + "+" + o.Path, Sources: []source{{Kind: ch, Tag: l.Tags[0], V: vs[0]}}, Winner: ch,
+						Also: &source{Kind: ch, Tag: o.Tags[0], V: ovs[1]}, AlsoLeaf: o.Path})
+				}
 			}
 		}
 		// --- ${VAR} expansion in string-valued settings
@@ -686,10 +708,18 @@ func (w *worker) eval(idx int) (res result) {
 		}
 	}()
 	switch k.Kind {
-	case "files", "sources", "cross":
+	case "files", "sources", "cross", "together":
 		f1, f2 := map[string]string{}, map[string]string{}
 		var args []string
 		env := map[string]string{}
+		if k.Also != nil {
+			if k.Also.Kind == "flag" {
+				args = append(args, flagArgs(k.Also.Tag, k.Also.V)...)
+			} else {
+				n, v := envPair(k.Also.Tag, k.Also.V)
+				env[n] = v
+			}
+		}
 		var present []string
 		wantV := value{}
 		for _, s := range k.Sources {
@@ -756,6 +786,10 @@ func (w *worker) eval(idx int) (res result) {
 			}
 			res.Sig = fmt.Sprintf("precedence:%s:%s-should-win:got=%s", l.Path, k.Winner, obs)
 			res.What = fmt.Sprintf("%s with %s: effective value %s, expected %s (value of %s)", l.Path, ev.J(k.Sources), got, want, k.Winner)
+			if k.Also != nil {
+				res.Sig += ":when-" + k.AlsoLeaf + "-is-given-by-" + k.Also.Kind + "-too"
+				res.What += fmt.Sprintf(" [in the same invocation %s is given by %s as well]", k.AlsoLeaf, k.Also.Kind)
+			}
 		}
 	case "expand", "expand-cmd":
 		w.evalExpand(k, l, &res)
